@@ -74,14 +74,14 @@ package invocation
 //@   requires t != nil && arguments != nil
 //@   requires len(delegations) == len(t.proof)
 //@   requires forall i int :: 0 <= i && i < len(delegations) ==> delegations[i] != nil
-//@   requires forall i int, j int :: 0 <= i && i < len(delegations) && 0 <= j && j < len(delegations[i].policy) ==> delegations[i].policy[j] != nil
+//@   requires forall i int, j int :: 0 <= i && i < len(delegations) && 0 <= j && j < len(delegations[i].policy) ==> delegations[i].policy[j] != nil && wfStmt(delegations[i].policy[j])
 //@   ensures [C03] sound: result == nil ==> argsNodeErr(arguments) == nil && argsOK(delegations, argsNode(arguments))
 //@   ensures [C05] complete: argsNodeErr(arguments) == nil && argsOK(delegations, argsNode(arguments)) ==> result == nil
 //@   assigns [C20] nothing
 //@   loop 0: invariant 0 <= k && k <= len(t.proof)
 //@           decreases len(t.proof) - k
 //@   loop 1: invariant 0 <= k && k <= len(t.proof) && fresh(policies)
-//@           invariant forall x int :: 0 <= x && x < len(policies) ==> policies[x] != nil
+//@           invariant forall x int :: 0 <= x && x < len(policies) ==> policies[x] != nil && wfStmt(policies[x])
 //@           invariant (forall m int :: 0 <= m && m < len(delegations) ==> policyOK(delegations[m].policy, argsNode(arguments))) ==> policyOK(policies, argsNode(arguments))
 //@           invariant (exists m int, j int :: 0 <= m && m < k && 0 <= j && j < len(delegations[m].policy) && !passes(sem(delegations[m].policy[j], argsNode(arguments)))) ==> !policyOK(policies, argsNode(arguments))
 //@           decreases len(t.proof) - k
@@ -103,9 +103,9 @@ package invocation
 //@ pure func allowedSpec(t *Token, l delegation.Loader, a *args.Args) bool =
 //@     loadsOK(t, l) && chainOKL(t, l) && timeOKL(t, l, theNow())
 //@  && argsNodeErr(a) == nil && argsOKL(t, l, argsNode(a))
-//@ // input validity: policies of loadable delegations hold no nil statement
+//@ // input validity: policies of loadable delegations hold well-formed statements (no nil, finite trees of the five kinds)
 //@ pure func wfLoaded(t *Token, l delegation.Loader) bool =
-//@     forall i int, j int :: 0 <= i && i < len(t.proof) && loadedErr(l, t.proof[i]) == nil && 0 <= j && j < len(ltok(t, l, i).policy) ==> ltok(t, l, i).policy[j] != nil
+//@     forall i int, j int :: 0 <= i && i < len(t.proof) && loadedErr(l, t.proof[i]) == nil && 0 <= j && j < len(ltok(t, l, i).policy) ==> ltok(t, l, i).policy[j] != nil && wfStmt(ltok(t, l, i).policy[j])
 //@
 //@ func (*Token).executionAllowed
 //@   requires t != nil && loader != nil && arguments != nil && wfLoaded(t, loader)
